@@ -185,6 +185,26 @@ theorem SameGeometry.resolves {s' s : Ssi} (g : SameGeometry s' s) (key : Bytes)
     · rw [← g.slen, ← g.soffset, ← g.srecsize]; exact g.sub.mono_rdNameAt _ _ _ _ _ hrd
     · rw [← g.slen, ← g.soffset, ← g.srecsize, ← g.plen]; exact g.sub _ _ _ hbuf
 
+theorem SameGeometry.findNumber {s' s : Ssi} (g : SameGeometry s' s) (i : Int) (r : Hit × Bytes)
+    (h : s'.findNumber i = .ok r) : s.findNumber i = .ok r := by
+  unfold Ssi.findNumber at h ⊢
+  simp only [g.nprimary, g.plen, g.poffset, g.precsize] at h
+  generalize (if i < 0 then (i + 18446744073709551616).toNat else i.toNat) = u at h ⊢
+  by_cases hge : u ≥ s.nprimary
+  · simp [hge] at h
+  · simp only [hge, ↓reduceIte] at h ⊢
+    cases hr : readAt s'.data (s.poffset + s.precsize * u) s.plen with
+    | none => simp [hr] at h
+    | some buf =>
+      simp only [hr] at h
+      simp only [g.sub _ _ _ hr]
+      cases hh : readHit s' (s.poffset + s.precsize * u + s.plen) with
+      | error e => simp [hh] at h
+      | ok hit =>
+        simp only [hh] at h
+        simp only [Sub.mono_readHit g.sub g.offsz _ _ hh]
+        exact h
+
 /-! ## what `Resolves` means on a written index -/
 
 /-- on the image of a well-formed index with distinct keys and registered alias targets, `key` resolves only to the
@@ -230,5 +250,23 @@ theorem resolves_image {ns : NewSsi} (h : ns.WF) (hd : ns.Distinct) (htg : ∀ a
     · refine ⟨k, hkm, hhit, .inr ⟨(sortSKeys ns.skeys)[j], hmem, by simpa using hrd, ?_⟩⟩
       rw [hak0, hcs, hkey]
     · exact absurd (hcs.trans hakey.symm) (hd.2.2 k0 hk0 a' ha')
+
+/-- the index cut after `n` bytes, if `Open` still accepts it, has the header and file records of the intact one -/
+theorem trunc_geometry {ns : NewSsi} (h : ns.WF) (n : Nat) (s' : Ssi) (ho : Ssi.open (ns.image.take n).toArray = .ok s') :
+    SameGeometry s' ns.opened ∧ ns.opened = { s' with data := ns.image.toArray } := by
+  have hsub := sub_take ns.image n
+  have hopen := hsub.mono_open s' ho
+  rw [open_image h] at hopen
+  have e : ns.opened = { s' with data := ns.image.toArray } := by injection hopen
+  have hdata : s'.data = (ns.image.take n).toArray := ((open_status _).2 s' ho).1
+  exact ⟨{ sub := by rw [hdata]; exact hsub
+           offsz := by rw [e], nprimary := by rw [e], nsecondary := by rw [e], plen := by rw [e], slen := by rw [e],
+           precsize := by rw [e], srecsize := by rw [e], poffset := by rw [e], soffset := by rw [e] }, e⟩
+
+theorem trunc_fileInfo {ns : NewSsi} (h : ns.WF) (n : Nat) (s' : Ssi) (ho : Ssi.open (ns.image.take n).toArray = .ok s')
+    (fh : Nat) : s'.fileInfo fh = ns.opened.fileInfo fh := by
+  have e := (trunc_geometry h n s' ho).2
+  unfold Ssi.fileInfo
+  rw [e]
 
 end EaselModel.Ssi
